@@ -58,6 +58,48 @@ def run_model(name, export=False, timeout=3000):
         shutil.rmtree(d, ignore_errors=True)
 
 
+CP_CONFIGS = {
+    # name: (MaxLen, MaxRegs, MaxDepth, Alphabet, Palette ids, MaxTotalLen)
+    'cp_quick': (3, 2, 2, [97], [3, 4], 4),          # 26 k transitions, ~8 s
+    'cp_deep': (3, 2, 3, [97], [3, 4], 4),           # 2.7 M transitions, ~3 min on 16 workers
+}
+
+
+def run_cp(name, timeout=3000, sabotage=None):
+    """TLC on spec/CPSystem.tla: the transcribed change-point algorithms; WF, NoDup, refinement of every contract clause,
+    tables of other registers untouched."""
+    ml, mr, md, alpha, pal, mt = CP_CONFIGS[name]
+    d = tlcrun.scratch('verif-cp-')
+    try:
+        snap = os.path.join(d, 'spec')
+        os.makedirs(snap)
+        for fn in os.listdir(tlcrun.SPEC):
+            if fn.endswith('.tla'):
+                shutil.copy(os.path.join(tlcrun.SPEC, fn), os.path.join(snap, fn))
+        if sabotage:
+            p = os.path.join(snap, 'ChangePoints.tla')
+            src = open(p).read()
+            assert sabotage[0] in src
+            open(p, 'w').write(src.replace(sabotage[0], sabotage[1]))
+        with open(os.path.join(snap, 'MC.cfg'), 'w') as f:
+            f.write('SPECIFICATION Spec\nCONSTANTS\n  MaxLen = %d\n  MaxRegs = %d\n  MaxDepth = %d\n  Alphabet = {%s}\n'
+                    '  Palette = {%s}\n  MaxTotalLen = %d\nINVARIANT WF\nINVARIANT NoDup\nPROPERTY Refines\nPROPERTY TablesFramed\n'
+                    'VIEW View\nCHECK_DEADLOCK FALSE\n' % (ml, mr, md, ', '.join(map(str, alpha)), ', '.join(map(str, pal)), mt))
+        tf = os.path.join(d, 'texts.json')
+        with open(tf, 'w') as f:
+            json.dump([[ord(c) for c in t] for t in PALETTE], f)
+        rc, out, wall = tlcrun.run_tlc('CPSystem.tla', 'MC.cfg', env={'VERIF_TEXTS': tf}, workers=16, timeout=timeout, heap='8g', cwd=snap)
+        ok = 'Model checking completed. No error has been found.' in out
+        states, trans = tlcrun.parse_stats(out)
+        return {'model': 'CPSystem/' + name, 'ok': ok, 'states': states, 'transitions': trans, 'wall_s': round(wall, 1),
+                'what': 'transcribed change-point algorithms (apply, remove, __getitem__, __iadd__, ljust/rjust/center, copy), texts <= %d, '
+                        '%d registers, depth %d, palette %s: WF (the library self-check), NoDup, refinement of every contract clause, '
+                        'TablesFramed on every transition' % (ml, mr, md, [PALETTE[i - 1] for i in pal]),
+                'detail': '' if ok else '\n'.join(l for l in out.splitlines() if l.startswith('Error') or 'violated' in l)[:1500]}
+    finally:
+        shutil.rmtree(d, ignore_errors=True)
+
+
 def desc_to_op(dsc):
     """Model operation description -> op description of harness/ops.py."""
     def forms(S):
@@ -103,9 +145,12 @@ _cache = {}
 def run_for(prop, tier):
     """Design runs relevant to a property (the reference model covers the history properties)."""
     if prop in ('C04', 'C05', 'C06', 'C07', 'C08', 'C09'):
-        # these checks export + replay the model (checks.model_replay), which checks the same properties on the way
-        return [run_model('deep')] if tier == 'thorough' else []
-    if prop not in ('C01', 'C12', 'C15'):
+        # these checks also export + replay the reference model (checks.model_replay)
+        cp = run_cp('cp_deep' if tier == 'thorough' else 'cp_quick')
+        return ([run_model('deep')] if tier == 'thorough' else []) + [cp]
+    if prop == 'C12':
+        return [run_model('small' if tier == 'thorough' else 'quick'), run_cp('cp_deep' if tier == 'thorough' else 'cp_quick')]
+    if prop not in ('C01', 'C15'):
         return []
     name = 'small' if tier == 'thorough' else 'quick'
     return [run_model(name)]
